@@ -168,7 +168,11 @@ impl<'a, T> ChordsV2<'a, T> {
     }
 
     pub fn accepts_chords_chv2(&self) -> bool {
-        self.ticks_to_ignore_chord == 0
+        // The "skip processing" bookkeeping (ticks_until_next_state_change, prev_queue_len) is only
+        // brought up to date by ticking. If the processing loop stopped ticking while it is stale,
+        // inputs arriving later would be compared against the old queue length and could be held
+        // back until the old countdown ran out.
+        self.ticks_to_ignore_chord == 0 && self.ticks_until_next_state_change == 0
     }
 
     pub fn push_back_chv2(&mut self, item: Queued) -> Option<Queued> {
